@@ -1790,12 +1790,23 @@ class State:
         if ifn is None and body['stmts'] and body['stmts'][0].get('k') == 'Let' and body['stmts'][0].get('els') is not None \
                 and e.get('src') != 'While':
             letelse = body['stmts'][0]          # loop { let Some(p) = it.next() else { break }; rest }
-        elif ifn is None:
+        elif ifn is None and not (body.get('stmts') and body['stmts'][0].get('k') == 'Let'):
             return None
+
+        fallible = [False]
 
         def next_call(n):
             while n.get('k') in ('AddrOf',) or (n.get('k') == 'Unary' and n.get('op') == 'Deref'):
                 n = n['e'] if n['k'] == 'AddrOf' else n['a']
+            if n.get('k') == 'Match' and (n.get('src') or '').startswith('TryDesugar'):
+                # `it.next().transpose()?`: items are Results, the loop sees the Ok payloads (an Err leaves the function)
+                c = n['scrut']
+                arg = c['args'][0] if c.get('k') == 'Call' and c.get('args') else c
+                if arg.get('k') == 'MethodCall' and norm_path(arg.get('callee') or '').split('::')[-1] == 'transpose':
+                    fallible[0] = True
+                    n = arg['recv']
+                else:
+                    return None
             if n.get('k') != 'MethodCall' or norm_path(n.get('callee') or '').split('::')[-1] != 'next' or n.get('args'):
                 return None
             r = n['recv']
@@ -1810,7 +1821,29 @@ class State:
                 return p['pats'][0]
             return None
         lid = pat = lbody = None
-        if letelse is not None:
+        st0 = body['stmts'][0] if body.get('stmts') else None
+        if e.get('src') != 'While' and st0 is not None and st0.get('k') == 'Let' and st0.get('els') is None \
+                and (st0.get('init') or {}).get('k') == 'Match' and (st0['init'].get('src') or 'Normal') == 'Normal' \
+                and len(st0['init'].get('arms', [])) == 2:
+            # loop { let x = match it.next() { Some(v) => v, None => break }; rest }
+            m = st0['init']
+            sa = [a for a in m['arms'] if some_pat(a['pat']) is not None and a.get('guard') is None]
+            na = [a for a in m['arms'] if a not in sa]
+            if len(sa) == 1 and len(na) == 1:
+                sb, nb = sa[0]['body'], na[0]['body']
+                while nb.get('k') == 'Block' and not nb.get('stmts') and nb.get('expr'):
+                    nb = nb['expr']
+                while sb.get('k') == 'Block' and not sb.get('stmts') and sb.get('expr'):
+                    sb = sb['expr']
+                sp = some_pat(sa[0]['pat'])
+                if nb.get('k') == 'Break' and nb.get('e') is None and sb.get('k') == 'Path' and sb.get('res') == 'local' \
+                        and sp.get('k') == 'Bind' and sp.get('id') == sb.get('id'):
+                    lid = next_call(m['scrut'])
+                    pat = st0['pat']
+                    lbody = {'k': 'Block', 'l': body.get('l'), 'stmts': body['stmts'][1:], 'expr': body.get('expr')}
+        if lid is not None and pat is not None:
+            pass
+        elif letelse is not None:
             els = letelse['els']
             only_break = not els.get('stmts') and (els.get('expr') or {}).get('k') == 'Break' and (els.get('expr') or {}).get('e') is None
             if not only_break and len(els.get('stmts', [])) == 1 and not els.get('expr'):
@@ -1860,13 +1893,15 @@ class State:
         walk(lbody)
         if uses[0]:
             return None
-        return lid, it, pat, lbody
+        return lid, it, pat, lbody, (lambda x: ('ok', x)) if fallible[0] else None
 
-    def iterate(self, it, pat, body, loop_id, env, e):
+    def iterate(self, it, pat, body, loop_id, env, e, wrap=None):
         """run `body` once per item of the iterator term `it` with `pat` bound to the item: concretely for a known list,
         otherwise as one generic iteration (shared by `for` loops and by explicit `while let Some(x) = it.next()` /
         `loop { match it.next() { .. } }` loops over a local iterator)"""
         s = self.seq_of(it)
+        if wrap is not None:
+            s = ('list', tuple(wrap(x) for x in s[1])) if s[0] == 'list' else ('seq', s[1], wrap(s[2]))
         if s[0] == 'list':
             for item in s[1]:
                 env2 = env
@@ -1979,8 +2014,8 @@ class State:
                     return self.e_Loop(w, env)
         ex = self.explicit_iterator_loop(e, env)
         if ex is not None:
-            it_id, it_term, pat, lbody = ex
-            r = self.iterate(it_term, pat, lbody, loop_id, env, e)
+            it_id, it_term, pat, lbody, wrap = ex
+            r = self.iterate(it_term, pat, lbody, loop_id, env, e, wrap=wrap)
             # the iterator has been run to its end
             env[it_id] = ('call', 'after', (it_term, ('lit', 'exhausted', ''), ('lit', 0, '#')))
             return r
